@@ -325,6 +325,11 @@ def step (_ : Unit) (ws : List String) : Unit × String :=
   | ["valxz", chk, d, o] => match chk.toNat?, hexToBA d, hexToBA o with
     | some c, some d, some o => ((), showVal (validateXz o c d))
     | _, _, _ => bad
+  | ["valxzp", chk, d, o] => match chk.toNat?, hexToBA d, hexToBA o with
+    | some c, some d, some o => match validateXz o c d with
+      | .ok s => ((), s ++ " props=" ++ streamChunkProps o c)
+      | .error e => ((), "bad " ++ e)
+    | _, _, _ => bad
   | ["valblock", chk, d, o] => match chk.toNat?, hexToBA d, hexToBA o with
     | some c, some d, some o => ((), showVal (validateLoneBlock o c d))
     | _, _, _ => bad
